@@ -60,6 +60,16 @@ prop('C02', 'model_checking',
      'tool-call traces are validated by the TLA+ contract monitor SPSigReqTrace', TOOL_NOTE,
      'TLA+ scenario spec + TLC + replay + TLC trace validation', 'section 5 C02')
 
+prop('C05', 'model_checking',
+     'SPAddress.tla models loads / destination / conditions / subject-confirmation steps of the SP and the contract of the '
+     'property over the full cross product (53 760 scenarios incl. encrypted assertions and both browser bindings); TLC '
+     'checks the repaired design against the contract (and exhibits the counterexamples of the pinned design as vacuity '
+     'control); scenarios are rendered from templates and replayed into Saml2Client.parse_authn_request_response, verdict '
+     'and came_from compared with the contract, pipeline disagreements reported as drift notes',
+     'unsigned responses (signature options off); the quick tier replays a seeded sample (about 8 600 scenarios), the thorough '
+     'tier all; ' + TOOL_NOTE,
+     'TLA+ scenario spec + TLC + exhaustive replay', 'section 5 C05')
+
 
 def main():
     props = [json.loads(l) for l in open(os.path.join(VERIF, 'properties.jsonl'))]
